@@ -25,7 +25,7 @@ ASSUMPTIONS = common.BASE_ASSUMPTIONS + [
 
 
 def gen_plan(ch: Chooser, tier: str) -> dict[str, Any]:
-    plan = changes.gen_change_plan(ch, faults=False, restarts=True, subs=False, max_failures=2, edits=(1, 8),
+    plan = changes.gen_change_plan(ch, faults=False, restarts=True, subs=ch.bool(0.3), max_failures=2, edits=(1, 8),
                                    causes=('create', 'update', 'delete', 'resume'), horizon=ch.choice([30.0, 60.0]),
                                    late_start=False, allow_perm=True)
     op = plan['operators'][0]
@@ -45,6 +45,12 @@ def gen_plan(ch: Chooser, tier: str) -> dict[str, Any]:
                 plan['actions'].append({'t': round(ch.float(horizon * 0.3, horizon + 10.0), 6), 'do': 'patch', 'name': name_,
                                         'patch': {'metadata': {'labels': {'res': 'yes'}}}, 'essential': True})
         horizon = plan['faults_stop'] = max(horizon, max(a['t'] for a in plan['actions']))
+    # edits landing in the middle of a resume cycle (shortly after a start): resuming is superseded by updating
+    names2 = sorted({o['body']['metadata']['name'] for o in plan['objects']})
+    for a_ in [a for a in plan['actions'] if a['do'] == 'start' and a['t'] > 0.0]:
+        if names2 and ch.bool(0.4):
+            plan['actions'].append({'t': round(a_['t'] + ch.choice([0.3, 0.8, 1.5, 2.5]), 6), 'do': 'patch',
+                                    'name': ch.choice(names2), 'patch': {'spec': {'mid': ch.int(1, 99)}}, 'essential': True})
     for _ in range(ch.int(1, 4)):
         t = ch.float(2.0, horizon)
         how = ch.choice(['relist', 'relist', 'reset', 'eof'])
@@ -66,6 +72,12 @@ def oracle(run: runner.Run, oc: Outcome) -> None:
     snaps = common.snapshots(run)
     steps = changes.extract_steps(run)
     resume_ids = [hid for hid, h in hspecs.items() if h['kind'] == 'resume']
+    # the sub-handlers of resume handlers come under "at most once per process" with them
+    sub_specs: dict[str, dict[str, Any]] = {}
+    for hid_, h_ in hspecs.items():
+        if h_['kind'] == 'resume':
+            for sub_ in h_.get('subs', []):
+                sub_specs[f"{hid_}/{sub_['id']}"] = dict(sub_, kind='resume', opts=dict(sub_.get('opts', {})))
     relisted = 0
     by_rid = {r.rid: r for r in run.net.requests}
     incs = run.ops.get(opid, [])
@@ -82,10 +94,32 @@ def oracle(run: runner.Run, oc: Outcome) -> None:
                 relisted += 1
             first_view = snaps.get((uid, first.rv))
             listed_first = first.etype is None
-            for hid in resume_ids:
-                h = hspecs[hid]
+            for hid in resume_ids + sorted(sub_specs):
+                h = hspecs.get(hid) or sub_specs[hid]
                 calls = [c for s in ss for c in s.calls if c.hid == hid]
                 finals = [c for c in calls if changes.final_outcome(c, h)]
+                is_parent = bool(h.get('subs'))   # re-entered for its children by design: the children are judged
+                if hid in sub_specs:
+                    if len(finals) > 1 and not any(s_.how != 'returned' for s_ in ss):
+                        # told apart: its record went with the leftovers of a superseded cause (kopf purges ALL records
+                        # then and writes back only the top-level ones that it re-purposes) -- i.e. the write that removed
+                        # it also removed the record of some other top-level handler
+                        key_ = st.key_name(hid)
+                        with_leftovers = False
+                        for t_ in run.transitions:
+                            if t_.uid != uid or t_.actor != actor or t_.before is None or t_.after is None:
+                                continue
+                            if not (finals[0].t0 <= t_.t <= finals[1].t0):
+                                continue
+                            rb, ra = st.records(t_.before), st.records(t_.after)
+                            if key_ in rb and key_ not in ra:
+                                gone_ = [k for k in rb if k not in ra and '.' not in k and k != st.key_name(hid.split('/')[0])]
+                                with_leftovers = bool(gone_)
+                        oc.add('C14/repeated', 'sub-handler-record-purged-with-the-leftovers-of-a-superseded-cause'
+                               if with_leftovers else 'sub-handler-twice-in-one-process',
+                               f"sub-handler {hid} of a resume handler completed {len(finals)} times for {uid} in process "
+                               f"{actor} (at t={[round(c.t0, 3) for c in finals]})", uid=uid, hid=hid)
+                    continue
                 # An object deleted under a running handler: the write of its outcome meets a 404 and is dropped
                 # silently (by design); the events still queued for the vanished object are processed without it.
                 vanished = len(finals) > 1 and any(
@@ -94,7 +128,7 @@ def oracle(run: runner.Run, oc: Outcome) -> None:
                     and rq.attrs.get('name') == finals[0].name for e in run.sim.trace)
                 if vanished:
                     oc.probes['probe.repeated-for-a-vanished-object'] = oc.probes.get('probe.repeated-for-a-vanished-object', 0) + 1
-                elif len(finals) > 1:
+                elif len(finals) > 1 and not is_parent:
                     # told apart: the repetition ran on a view older than a write this process had already had
                     # acknowledged, after the process was asked to exit (its streams are closed then, the echo of the
                     # write cannot come, and the queued older event is processed once the consistency timeout is over)
